@@ -261,6 +261,8 @@ theorem top_applyOp {L g0} (c : Sys) (op : SOp) (h : TopS L g0 c.s)
   | setReady b => exact h.of_quiet (quiet_liftT _ _)
   | setFlush b => exact h.of_quiet (quiet_liftT _ _)
   | fault k => exact h.of_quiet (by quiet_tac)
+  | faultSkip n => exact h.of_quiet (by quiet_tac)
+  | selfWake b => exact h.of_quiet (by quiet_tac)
   | take n =>
     exact h.of_quiet ((by quiet_tac : Quiet c.s { c.s with t := (c.s.t.take n).1 }).trans (quiet_foldl_took _ _))
   | advance n => exact top_onAdvance _ _ h
